@@ -4,7 +4,7 @@
 #   tools/seedeval.sh <Cxx> <mN> [extra properties whose checks to run as well…]
 set -u
 P=$1; M=$2; shift 2
-W=/tmp/seed-$P
+W=${SEEDW:-/tmp/seed-$P}
 O=$W/OUT/$M
 ID=$P-$M
 D=/verif/seeded/$ID
